@@ -1,5 +1,6 @@
 import Proofs.SetAlg
 import Proofs.SetAlg2
+import Proofs.SetAlg3
 import Generated.C07
 /-!
 # C07 — Records and record sets have value semantics and exact set algebra
@@ -185,6 +186,42 @@ theorem rds_refines_set (sing : List Nat) (s o : Rds) (rd : Rd) (ttl : Option Na
     rw [rdsAddAll_refines sing (updateTtl s o.ttl) o.items (by rw [e3]; exact h1) (by rw [e3]; exact h2)
       (by intro r hr; rw [e2, e3]; exact h3 r hr), e1]
 
+/-- every in-place operation of a (mutable) rdataset object — `add`, `update_ttl`, `remove`, `discard`, `pop`,
+`clear`, index and slice deletion, the four `*_update` methods, `update` and `-=`, with any other operand,
+aliased or not, raising or not — and every history of them keeps the rdataset duplicate-free with records of
+its own class and type ("duplicates collapse" for the whole `Rdataset` surface, not only for `Set`). -/
+theorem rdataset_ops_keep_invariant (sing : List Nat) (h : List (InPlace × Rds × Bool)) (r : Reg)
+    (hw : WfRds r.s) : WfRds (regRun sing r h).s :=
+  regRun_wf sing h r hw
+
+/-- "ImmutableRdataset: mutators raise, functional ops return new immutable sets", in the model the driver
+runs: an in-place operation on an immutable rdataset object leaves it exactly as it is and reports the error
+`immutable` — except `difference_update` with an empty, distinct argument, which performs no write and
+returns normally; so does every history of in-place operations; wrapping copies the value; and a copying
+form on an immutable object computes what it computes on a mutable object of the same value, returning an
+immutable result. -/
+theorem immutable_rdataset (sing : List Nat) (s o : Rds) (op : InPlace) (alias : Bool)
+    (h : List (InPlace × Rds × Bool)) (kind : Nat) :
+    (regApply sing ⟨s, true⟩ op o alias).1 = ⟨s, true⟩ ∧
+    ((regApply sing ⟨s, true⟩ op o alias).2 = some .immutable ∨
+      ((regApply sing ⟨s, true⟩ op o alias).2 = none ∧ alias = false ∧ o.items = [])) ∧
+    regRun sing ⟨s, true⟩ h = ⟨s, true⟩ ∧
+    regFreeze ⟨s, false⟩ = ⟨s, true⟩ ∧
+    (regFun sing ⟨s, true⟩ kind o).1.imm = true ∧
+    (regFun sing ⟨s, true⟩ kind o).1.s = (regFun sing ⟨s, false⟩ kind o).1.s ∧
+    (regFun sing ⟨s, true⟩ kind o).2 = (regFun sing ⟨s, false⟩ kind o).2 := by
+  refine ⟨regApply_imm sing s op o alias, ?_, regRun_imm sing s h, rfl, rfl, rfl, rfl⟩
+  unfold regApply
+  simp only [if_true]
+  cases op <;> try exact Or.inl rfl
+  by_cases c : (!alias && o.items.isEmpty) = true
+  · right
+    simp only [c, if_true, true_and]
+    simp only [Bool.and_eq_true, Bool.not_eq_true', List.isEmpty_iff] at c
+    exact c
+  · left
+    simp [c]
+
 /-- **partial (enumeration, not proof)**: "Names and records are immutable values (no attribute can be
 rebound and no field is a mutable container)" and "ImmutableRdataset: mutators raise".  The finite surface
 (every immutable class × every slot × setattr/delattr, field carrier types of every specimen, every mutator
@@ -207,6 +244,13 @@ example : (run Consts.singletons (rdsNew 1 5 0 300, [300])
 -- an RRSIG covering NS is refused by an rdataset of RRSIGs covering A
 example : (rdsAdd Consts.singletons { cls := 1, typ := 46, covers := 1, ttl := 5, items := [⟨1, 46, false, [0, 1, 9]⟩] }
     ⟨1, 46, false, [0, 2, 9]⟩ none).2 = some .differingCovers := by decide
+-- an ImmutableRdataset refuses add and |=, accepts `difference_update(empty)`, and its union is immutable
+example : (regApply Consts.singletons ⟨{ cls := 1, typ := 1, covers := 0, ttl := 5, items := [⟨1, 1, false, [1]⟩] }, true⟩
+      (.add ⟨1, 1, false, [2]⟩ none) (rdsNew 1 1 0 0) false).2 = some .immutable ∧
+    (regApply Consts.singletons ⟨rdsNew 1 1 0 5, true⟩ .diffUpdate (rdsNew 1 1 0 0) false).2 = none ∧
+    (regFun Consts.singletons ⟨{ cls := 1, typ := 1, covers := 0, ttl := 5, items := [⟨1, 1, false, [1]⟩] }, true⟩ 0
+      { cls := 1, typ := 1, covers := 0, ttl := 3, items := [⟨1, 1, false, [2]⟩] }).1 =
+      ⟨{ cls := 1, typ := 1, covers := 0, ttl := 3, items := [⟨1, 1, false, [1]⟩, ⟨1, 1, false, [2]⟩] }, true⟩ := by decide
 -- relative records sort first; otherwise octet order with the shorter encoding first
 example : rdLt ⟨1, 15, true, [9]⟩ ⟨1, 15, false, [0]⟩ ∧ rdLt ⟨1, 16, false, [1]⟩ ⟨1, 16, false, [1, 0]⟩ := by
   unfold rdLt; decide
